@@ -572,7 +572,10 @@ class Grid:
             Source data array with updated positions along axes matching with target array
         """
 
-        interp_axes = []
+        # where each axis has to go: directly to the position of `like` when one of the two
+        # positions is the cell center, via the center otherwise
+        first_hop = {}
+        second_hop = {}
         for axname, axis in self.axes.items():
             try:
                 position_array, _ = axis._get_position_name(array)
@@ -584,11 +587,22 @@ class Grid:
             except KeyError:
                 continue
             if position_like != position_array:
-                interp_axes.append(axname)
+                if "center" not in (position_array, position_like):
+                    first_hop[axname] = "center"
+                second_hop[axname] = position_like
 
+        if first_hop:
+            array = self.interp(
+                array,
+                list(first_hop),
+                to=first_hop,
+                fill_value=fill_value,
+                boundary=boundary,
+            )
         array = self.interp(
             array,
-            interp_axes,
+            list(second_hop),
+            to=second_hop,
             fill_value=fill_value,
             boundary=boundary,
         )
